@@ -444,6 +444,20 @@ impl H {
             }
         }
     }
+    /// Create (without polling) the future of a tell / tell_with_timeout / ask of an `MU` message.
+    pub fn make_u<'a>(&'a self, kind: SendKind, body: Body) -> Pin<Box<dyn Future<Output = Res> + Send + 'a>> {
+        use futures::FutureExt;
+        match (self, kind) {
+            (H::D(r), SendKind::Tell) => r.tell(MU(body)).map(|x| to_res(x, |_| Rep::None)).boxed(),
+            (H::D(r), SendKind::TellTo(ms)) => r.tell_with_timeout(MU(body), Duration::from_millis(ms)).map(|x| to_res(x, |_| Rep::None)).boxed(),
+            (H::D(r), SendKind::AskTo(ms)) => r.ask_with_timeout(MU(body), Duration::from_millis(ms)).map(|x| to_res(x, Rep::U)).boxed(),
+            (H::D(r), _) => r.ask(MU(body)).map(|x| to_res(x, Rep::U)).boxed(),
+            (H::E(e), SendKind::Tell) => e.tu.tell(MU(body)).map(|x| to_res(x, |_| Rep::None)).boxed(),
+            (H::E(e), SendKind::TellTo(ms)) => e.tu.tell_with_timeout(MU(body), Duration::from_millis(ms)).map(|x| to_res(x, |_| Rep::None)).boxed(),
+            (H::E(e), SendKind::AskTo(ms)) => e.au.ask_with_timeout(MU(body), Duration::from_millis(ms)).map(|x| to_res(x, Rep::U)).boxed(),
+            (H::E(e), _) => e.au.ask(MU(body)).map(|x| to_res(x, Rep::U)).boxed(),
+        }
+    }
     /// direct access for metrics (only meaningful in direct mode)
     pub fn as_ref_direct(&self) -> Option<&ActorRef<SA>> {
         match self {
@@ -820,6 +834,10 @@ impl SA {
                 }
                 Step::Busy(us) => {
                     let t = std::time::Instant::now();
+                    if *us > 20_000 {
+                        // long wall-clock handlers (metrics lower bound across the 1 s boundary): block instead of spinning
+                        std::thread::sleep(Duration::from_micros(*us - 1_000));
+                    }
                     while t.elapsed() < Duration::from_micros(*us) {
                         std::hint::spin_loop();
                     }
